@@ -77,6 +77,27 @@ def native_checks():
             json.dumps(asjson(r))
         except Exception as e:  # noqa: BLE001
             bad.append([g[:30], type(e).__name__ + ': ' + str(e)[:100]])
+    # cycles that pass through public attributes of object-model nodes (e.g. a name-resolution pass linking a reference to its declaration)
+    try:
+        import sys
+        from tatsu.objectmodel import Node
+        a, b = Node(ast='a'), Node(ast='b')
+        a.other, b.other = b, a
+        prog = tatsu.compile("start::Prog: decls+={decl} ;\ndecl::Decl: n=/[a-z]/ '=' v=ref ';' ;\nref::Ref: /[a-z]/ ;\n", name='VT').parse('x=x;y=x;', asmodel=True)
+        decls = [d for grp in prog.decls for d in (grp if isinstance(grp, list) else [grp])]
+        for d in decls:
+            d.v.target = decls[0]            # Ref -> Decl (a cycle for the first declaration)
+        old = sys.getrecursionlimit()
+        sys.setrecursionlimit(800)
+        try:
+            json.dumps(asjson(a))
+            json.dumps(asjson(prog))
+        finally:
+            sys.setrecursionlimit(old)
+    except RecursionError:
+        bad.append(['cyclic object model', 'asjson did not terminate (RecursionError)'])
+    except Exception as e:  # noqa: BLE001
+        bad.append(['cyclic object model', type(e).__name__ + ': ' + str(e)[:100]])
     shared = {'k': [1, 2]}
     shared['self'] = shared
     twice = [shared['k'], shared['k']]
